@@ -33,7 +33,8 @@ FlagSets == IF Tier = "quick"
            /\ ("WITNESS" \in f => "P2SH" \in f)
            /\ ("CLEANSTACK" \in f => {"P2SH", "WITNESS"} \subseteq f)
            /\ ("MINIMALIF" \in f <=> "WITNESS_PUBKEYTYPE" \in f)     \* keep the product manageable
-           /\ ("NULLFAIL" \in f <=> "MINIMALDATA" \in f) }
+           /\ ("NULLFAIL" \in f <=> "MINIMALDATA" \in f)
+           /\ ("SIGPUSHONLY" \in f <=> "DISCOURAGE_UPGRADABLE_WITNESS_PROGRAM" \in f) }
 
 IsWitnessKind(pk) == pk \in {"p2wsh", "p2sh-p2wsh", "p2wpkh", "p2sh-p2wpkh", "witv1", "witv0bad", "p2sh-witv1",
                              "witv1-40", "witv0-40", "witv1-2", "witv16"}
